@@ -2,12 +2,15 @@
     (statements only; proofs are in Lpg/Proofs*.v).  Pinned by props/C14.statements.
 
     Every theorem quantifies over the configuration [b] (backward adjacency on/off) and over ALL
-    operation sequences [ops]; [run (init b) ops] is the state they lead to. *)
+    operation sequences [ops]; [run (init b) ops] is the state they lead to.  The model is the code
+    as it is after the repairs ebcbf15 (K1), 1879631 (K5), 109e5bf (K2, GrafeoDB level), c82f983 (K3),
+    c5e300e (K4), 2e121d0 (K7); each repaired behaviour is kept as a [_pre] definition with a
+    [_pre_refuted] theorem.  Open: K6 ([hist_sets_dead]) and K8 ([hist_dangles], store level). *)
 From Coq Require Export ZArith List Bool Permutation.
 Export ListNotations.
 From GV Require Export Lpg.Model Lpg.Classes.
 From GV Require Import Lpg.ProofsBase Lpg.ProofsInv Lpg.ProofsLabel Lpg.ProofsIndex Lpg.ProofsCount
-  Lpg.ProofsAdj Lpg.ProofsDangling Lpg.ProofsZone Lpg.ProofsConj.
+  Lpg.ProofsAdj Lpg.ProofsDangling Lpg.ProofsZone Lpg.ProofsConj Lpg.ProofsDb.
 Open Scope Z_scope.
 
 (** label_index <-> node_labels, and only live nodes *)
@@ -43,24 +46,24 @@ Proof.
 Qed.
 Print Assumptions adj_spec.
 
-(** lookup through a property index = scan (outside K3: float NaN / signed zero in the query
-    value, and K6: a property written to an id that is not a live node) *)
+(** lookup through a property index = scan, for every query value (c82f983: values with a float
+    NaN / zero are scanned) -- outside K6: a property written to an id that is not a live node *)
 Theorem index_ok : forall b ops key q,
-  hist_sets_dead (init b) ops = false -> has_float_special q = false ->
+  hist_sets_dead (init b) ops = false ->
   let s := run (init b) ops in
   NoDup (find_by_prop s key q) /\ (forall n, In n (find_by_prop s key q) <-> In n (scan_by_prop s key q)).
-Proof. intros b ops key q H Hq. destruct (PI_run b ops H) as (B & P & I). apply index_ok_inv; assumption. Qed.
+Proof. intros b ops key q H. destruct (PI_run b ops H) as (B & P & I). apply index_ok_inv; assumption. Qed.
 Print Assumptions index_ok.
 
 (** find_nodes_by_properties (conjunction of equalities, evaluated through the property indexes where
     there are any, starting from the most selective indexed condition) = the scan of the conjunction *)
 Theorem conj_index_ok : forall b ops conds,
-  hist_sets_dead (init b) ops = false -> (forall c, In c conds -> has_float_special (snd c) = false) ->
+  hist_sets_dead (init b) ops = false ->
   let s := run (init b) ops in forall n, In n (find_by_props s conds) <-> In n (scan_by_props s conds).
 Proof. exact find_by_props_ok_l. Qed.
 Print Assumptions conj_index_ok.
 
-(** the behaviour before the repair ebcbf15 (delete_node left the node in the index) *)
+(** K1: the behaviour before the repair ebcbf15 (delete_node left the node in the index) *)
 Theorem index_ok_pre_refuted : exists ops key q n,
   hist_sets_dead (init true) ops = false /\ has_float_special q = false /\
   In n (find_by_prop (run_pre (init true) ops) key q) /\ ~ In n (scan_by_prop (run_pre (init true) ops) key q).
@@ -70,17 +73,19 @@ Proof.
 Qed.
 Print Assumptions index_ok_pre_refuted.
 
-(** K3: the index compares floats by bit pattern, the scan by IEEE equality *)
-Theorem index_float_refuted : exists ops key q n,
+(** K3: before c82f983 the lookup went through the index whenever there was one; the index compares
+    floats by bit pattern, the scan by IEEE equality; the current lookup agrees with the scan *)
+Theorem index_float_pre_refuted : exists ops key q n,
+  let s := run (init true) ops in
   hist_sets_dead (init true) ops = false /\
-  In n (find_by_prop (run (init true) ops) key q) /\ ~ In n (scan_by_prop (run (init true) ops) key q).
+  In n (find_by_prop_pre s key q) /\ ~ In n (scan_by_prop s key q) /\ ~ In n (find_by_prop s key q).
 Proof.
   exists [CreateNode []; SetNodeProp 0 1 (VFloat 9221120237041090560); CreateIndex 1], 1, (VFloat 9221120237041090560), 0.
   vm_compute. repeat split; auto; intros [].
 Qed.
-Print Assumptions index_float_refuted.
+Print Assumptions index_float_pre_refuted.
 
-(** K6: a property written to a deleted node enters the index *)
+(** K6 (open): a property written to a deleted node enters the index *)
 Theorem index_dead_refuted : exists ops key q n,
   has_float_special q = false /\
   In n (find_by_prop (run (init true) ops) key q) /\ ~ In n (scan_by_prop (run (init true) ops) key q).
@@ -91,59 +96,46 @@ Qed.
 Print Assumptions index_dead_refuted.
 
 (** min/max pruning never claims "no match" when a match exists -- for node and edge columns, all
-    six operators, every value type, nulls, overwrites, removals (outside K4: a strict comparison
-    on a column where an Int64 of magnitude >= 2^53 meets a Float64) *)
+    six operators, every value type (Int64 and Float64 mixed at any magnitude: c5e300e compares them
+    exactly), nulls, overwrites, removals; no exception *)
 Theorem might_match_sound : forall b ops (node : bool) key o q,
   let s := run (init b) ops in
   let p := if node then nprops s else eprops s in
-  ps_round_class p key o q = false ->
   ps_might_match p key o q = false -> forall n x, ps_get p n key = Some x -> sat o x q = false.
 Proof. exact might_match_sound_l. Qed.
 Print Assumptions might_match_sound.
 
-(** the behaviour before the repair 1879631 (<> was pruned when min == max == v) was sound only
-    outside K5 as well: <> on a column holding, or bounded by, a value of another type or a NaN.
-    For <> with a Float64 query value the floats of the history and the query value must be 64-bit
-    patterns (the model keeps bit patterns as unbounded integers). *)
-Theorem might_match_pre_sound : forall b ops (node : bool) key o q,
-  let s := run (init b) ops in
-  let p := if node then nprops s else eprops s in
-  (o = OpNe -> is_float q = true -> hist_vals_wf ops /\ value_wf q) ->
-  ps_zone_class p key o q = false ->
-  ps_might_match_pre p key o q = false -> forall n x, ps_get p n key = Some x -> sat o x q = false.
-Proof. exact might_match_pre_sound_full. Qed.
-Print Assumptions might_match_pre_sound.
-
 (** find_nodes_in_range (pruned through the zone map, even when it is marked dirty) = the scan *)
 Theorem range_sound : forall b ops key lo hi li hi_i,
   let s := run (init b) ops in
-  ps_range_class (nprops s) key lo hi li hi_i = false ->
   find_in_range s key lo hi li hi_i = scan_in_range s key lo hi li hi_i.
 Proof. exact range_sound_l. Qed.
 Print Assumptions range_sound.
 
-(** K4: Float 2^53 is the minimum, Int 2^53 compares Equal to it and is stored, query < Int 2^53+1 *)
-Theorem zone_round_refuted : exists ops key q n x,
-  let s := run (init true) ops in
-  ps_get (nprops s) n key = Some x /\ sat OpLt x q = true /\ node_might_match s key OpLt q = false /\
-  In n (scan_in_range s key None (Some q) false false) /\ find_in_range s key None (Some q) false false = [].
+(** K4: before c5e300e the zone map compared an Int64 with a Float64 through [i64 as f64].  A column
+    that received Float 2^53 and then Int 2^53 keeps Float 2^53 as its minimum (under either
+    comparison); the old predicates then prune [< Int 2^53+1] although Int 2^53 is stored; the
+    current ones do not *)
+Theorem zone_round_pre_refuted : exists v1 x q,
+  let z := zone_insert_g cmp_zone_pre (zone_insert_g cmp_zone_pre zone_new v1) x in
+  let c := {| c_vals := [(0, v1); (1, x)]; c_zone := z; c_dirty := false |} in
+  z = zone_insert (zone_insert zone_new v1) x /\ sat OpLt x q = true /\
+  col_might_match_pre_k4 c OpLt q = false /\ zone_range_g cmp_zone_pre z None (Some q) false false = false /\
+  col_might_match c OpLt q = true /\ zone_range z None (Some q) false false = true.
 Proof.
-  exists [CreateNode []; CreateNode []; SetNodeProp 0 1 (VFloat 4845873199050653696); SetNodeProp 1 1 (VInt 9007199254740992)],
-         1, (VInt 9007199254740993), 1, (VInt 9007199254740992).
-  vm_compute. repeat split; auto.
+  exists (VFloat 4845873199050653696), (VInt 9007199254740992), (VInt 9007199254740993). vm_compute. repeat split.
 Qed.
-Print Assumptions zone_round_refuted.
+Print Assumptions zone_round_pre_refuted.
 
-(** K5 (repaired by 1879631): the column holds Int 1 and a NaN; before the repair <> 1 was pruned
-    although NaN <> 1; the current code does not prune *)
-Theorem zone_ne_pre_refuted : exists ops key q n x,
-  let s := run (init true) ops in
-  ps_get (nprops s) n key = Some x /\ sat OpNe x q = true /\ ps_might_match_pre (nprops s) key OpNe q = false /\
-  node_might_match s key OpNe q = true.
+(** K5: before 1879631 [<>] was pruned when min == max == v; a column holding Int 1 and a NaN
+    pruned [<> 1] although NaN <> 1 is stored; the current predicate never prunes [<>] *)
+Theorem zone_ne_pre_refuted : exists v1 x q,
+  let z := zone_insert_g cmp_zone_pre (zone_insert_g cmp_zone_pre zone_new v1) x in
+  let c := {| c_vals := [(0, v1); (1, x)]; c_zone := z; c_dirty := false |} in
+  z = zone_insert (zone_insert zone_new v1) x /\ sat OpNe x q = true /\
+  col_might_match_pre_k5 c OpNe q = false /\ col_might_match c OpNe q = true.
 Proof.
-  exists [CreateNode []; CreateNode []; SetNodeProp 0 1 (VInt 1); SetNodeProp 1 1 (VFloat 9221120237041090560)],
-         1, (VInt 1), 1, (VFloat 9221120237041090560).
-  vm_compute. repeat split; auto.
+  exists (VInt 1), (VFloat 9221120237041090560), (VInt 1). vm_compute. repeat split.
 Qed.
 Print Assumptions zone_ne_pre_refuted.
 
@@ -154,12 +146,12 @@ Theorem count_enum : forall b ops, let s := run (init b) ops in
 Proof. intros b ops. apply count_enum_inv. apply BaseInv_run. Qed.
 Print Assumptions count_enum.
 
-(** statistics after a refresh = what compute_statistics yields on the current graph (outside K7:
-    a label was added/removed while the statistics were considered fresh) ... *)
-Theorem stats_fresh : forall b ops, hist_label_unflagged (init b) ops = false ->
+(** statistics after a refresh = what compute_statistics yields on the current graph, after any
+    history (2e121d0: label changes mark the statistics for recomputation too) ... *)
+Theorem stats_fresh : forall b ops,
   let s := run (init b) (ops ++ [RefreshStats]) in
   stats_cur s = compute_stats s /\ s_nodes (stats_cur s) = node_count s /\ s_edges (stats_cur s) = edge_count s.
-Proof. intros b ops H. cbv zeta. rewrite (stats_after_refresh b ops H). repeat split. Qed.
+Proof. intros b ops. cbv zeta. rewrite (stats_after_refresh b ops). repeat split. Qed.
 Print Assumptions stats_fresh.
 
 (** ... and what it yields for a label is the cardinality of the label lookup *)
@@ -169,13 +161,13 @@ Theorem stats_labels_actual : forall b ops l, let s := run (init b) ops in
 Proof. intros b ops l. apply stats_labels_spec. apply LabInv_run. Qed.
 Print Assumptions stats_labels_actual.
 
-(** K7 *)
-Theorem stats_label_refuted : exists ops,
-  let s := run (init true) (ops ++ [RefreshStats]) in stats_cur s <> compute_stats s.
+(** K7: before 2e121d0 add_label / remove_label left needs_stats_recompute alone *)
+Theorem stats_label_pre_refuted : exists ops,
+  let s := run_pre_k7 (init true) (ops ++ [RefreshStats]) in stats_cur s <> compute_stats s.
 Proof. exists [CreateNode [0]; RefreshStats; AddLabel 0 1]. vm_compute. discriminate. Qed.
-Print Assumptions stats_label_refuted.
+Print Assumptions stats_label_pre_refuted.
 
-(** deleted entities appear nowhere: outside K2 no live edge has an endpoint that is not a live
+(** deleted entities appear nowhere: outside K8 no live edge has an endpoint that is not a live
     node, hence every listed neighbour is live and validate() is clean *)
 Theorem no_dangling_ok : forall b ops, hist_dangles (init b) ops = false ->
   let s := run (init b) ops in
@@ -188,7 +180,24 @@ Proof.
 Qed.
 Print Assumptions no_dangling_ok.
 
-(** K2: GrafeoDB::delete_node / LpgStore::delete_node do not detach *)
+(** GrafeoDB::delete_node detaches (109e5bf): in a GrafeoDB-level history ([DbDeleteNode] = the
+    wrapper; [Basic o] = a store-level operation) only a store-level operation of the class K8 can
+    leave a dangling edge -- the wrapper's delete_node never does.  [dexpand] is the store-level
+    history the GrafeoDB-level one amounts to ([drun s ds = run s (dexpand s ds)]); it must be
+    well-formed (u64 ids, fewer than 2^64 operations) *)
+Theorem db_delete_node_detaches : forall b ds,
+  hist_wf (dexpand (init b) ds) -> dhist_dangles (init b) ds = false ->
+  let s := drun (init b) ds in
+  no_dangling s = true /\
+  (forall n d e, In (d, e) (out_entries (live_edges s) n) \/ In (d, e) (in_entries (live_edges s) n) -> node_live s d = true).
+Proof. exact db_no_dangling_l. Qed.
+Print Assumptions db_delete_node_detaches.
+
+Theorem db_history_is_store_history : forall s ds, drun s ds = run s (dexpand s ds).
+Proof. intros s ds. apply drun_expand. Qed.
+Print Assumptions db_history_is_store_history.
+
+(** K8 (open; the store-level part of the former K2): LpgStore::delete_node does not detach *)
 Theorem dangling_refuted : exists ops n d,
   let s := run (init true) ops in
   In d (neighbors s n Outgoing) /\ node_live s d = false /\ validate s <> [].
@@ -198,28 +207,22 @@ Proof.
 Qed.
 Print Assumptions dangling_refuted.
 
-(** non-vacuity of the zone-map premises: a mixed Int/Float column below 2^53 is outside both classes
-    and pruning does happen on it *)
-Example zone_scope_nonempty :
-  let ops := [CreateNode []; CreateNode []; CreateNode []; SetNodeProp 0 1 (VFloat 4612811918334230528);
-              SetNodeProp 1 1 (VInt 2); SetNodeProp 2 1 (VInt 3); SetEdgeProp 0 1 (VInt 4)] in
-  let s := run (init true) ops in
-  ps_round_class (nprops s) 1 OpLt (VInt 2) = false /\ node_might_match s 1 OpLt (VInt 2) = false /\
-  ps_round_class (nprops s) 1 OpGe (VFloat 4612811918334230528) = false /\ node_might_match s 1 OpGe (VFloat 4612811918334230528) = true /\
-  ps_zone_class (eprops s) 1 OpNe (VInt 4) = false /\ ps_might_match_pre (eprops s) 1 OpNe (VInt 4) = false /\ edge_might_match s 1 OpGt (VInt 4) = false /\
-  ps_range_class (nprops s) 1 (Some (VInt 3)) None false true = false /\ find_in_range s 1 (Some (VInt 3)) None false true = [].
+(** K2 (repaired at the GrafeoDB level): the same history through GrafeoDB::delete_node is clean *)
+Example db_delete_clean :
+  let s := drun (init true) [Basic (CreateNode []); Basic (CreateNode []); Basic (CreateEdge 0 1 0); DbDeleteNode 1] in
+  neighbors s 0 Outgoing = [] /\ validate s = [] /\ edge_count s = 0.
 Proof. vm_compute. repeat split. Qed.
 
-(** ... and of the premise about <> with a Float64 query value: an all-Float64 column of one value *)
-Example zone_scope_float_ne :
-  let ops := [CreateNode []; CreateNode []; SetNodeProp 0 1 (VFloat 4607182418800017408); SetNodeProp 1 1 (VFloat 4607182418800017408)] in
+(** non-vacuity: mixed Int/Float columns (also beyond 2^53) are pruned, and correctly *)
+Example zone_scope_nonempty :
+  let ops := [CreateNode []; CreateNode []; CreateNode []; SetNodeProp 0 1 (VFloat 4845873199050653696);
+              SetNodeProp 1 1 (VInt 9007199254740993); SetNodeProp 2 1 (VInt 3); SetEdgeProp 0 1 (VInt 4)] in
   let s := run (init true) ops in
-  hist_vals_wf ops /\ value_wf (VFloat 4607182418800017408) /\
-  ps_zone_class (nprops s) 1 OpNe (VFloat 4607182418800017408) = false /\
-  ps_might_match_pre (nprops s) 1 OpNe (VFloat 4607182418800017408) = false.
-Proof.
-  cbv zeta. split; [repeat constructor; unfold in_u64, two64; lia|]. split; [unfold value_wf, in_u64, two64; lia|]. vm_compute. split; reflexivity.
-Qed.
+  node_might_match s 1 OpLt (VInt 3) = false /\ node_might_match s 1 OpLt (VInt 4) = true /\
+  node_might_match s 1 OpGt (VInt 9007199254740993) = false /\ node_might_match s 1 OpGt (VFloat 4845873199050653696) = true /\
+  edge_might_match s 1 OpGt (VInt 4) = false /\ edge_might_match s 1 OpNe (VInt 4) = true /\
+  find_in_range s 1 (Some (VInt 9007199254740993)) None false true = [].
+Proof. vm_compute. repeat split. Qed.
 
 (** non-vacuity of the hypotheses: histories inside the scope of the theorems that exercise
     deletes, labels, edges, properties, indexes and compaction *)
@@ -227,8 +230,14 @@ Example scope_nonempty :
   let ops := [CreateNode [0; 1]; CreateNode [1]; CreateEdge 0 1 0; CreateEdge 0 0 1; SetNodeProp 0 2 (VInt 7);
               CreateIndex 2; Compact; DeleteEdge 0; FreezeAll; DeleteNodeEdges 1; DeleteNode 1; RefreshStats; AddLabel 0 3] in
   hist_wf ops /\ hist_sets_dead (init true) ops = false /\ hist_dangles (init true) ops = false
-  /\ hist_label_unflagged (init true) (firstn 12 ops) = false
   /\ find_by_prop (run (init true) ops) 2 (VInt 7) = [0] /\ edges_from (run (init true) ops) 0 Outgoing = [(0, 1)].
 Proof.
   cbv zeta. split; [split; [repeat constructor; unfold in_u64, two64; lia|unfold two64; cbn; lia]|]. vm_compute. repeat split.
+Qed.
+
+Example db_scope_nonempty :
+  let ds := [Basic (CreateNode [0]); Basic (CreateNode []); Basic (CreateEdge 0 1 0); Basic (CreateEdge 1 1 1); DbDeleteNode 1; DbDeleteNode 7] in
+  hist_wf (dexpand (init false) ds) /\ dhist_dangles (init false) ds = false /\ node_count (drun (init false) ds) = 1.
+Proof.
+  cbv zeta. split; [split; [vm_compute; repeat constructor; unfold in_u64, two64; lia|vm_compute; reflexivity]|]. vm_compute. split; reflexivity.
 Qed.
